@@ -1,4 +1,5 @@
 import PharmpyProofs.C16.DBLemmas
+import PharmpyProofs.C16.TextLemmas
 /-
   C16 — Model database and run context are atomic and faithful, even across
   crashes.  Property theorems.
@@ -423,5 +424,216 @@ example :
     IndexUsable wM2 (apply (applyAll fs1 (openKey wM2.key fs1)) (.create (pendingPath wM2.key))) = true ∧
     (dbRetrieve "K2" (applyAll fs1 (dbStoreEntry wM2 fs1).1)).2 = .ok wM2.entry ∧
     (dbRetrieve "K1" (applyAll fs1 (dbStoreEntry wM2 fs1).1)).2 = .ok wM1.entry := by decide
+
+end Pharmpy.C16
+
+namespace Pharmpy.C16
+
+/-! ### All workloads, all crash points -/
+
+/-- A crash point of a workload is a crash point of one of its calls, run on
+    the state the completed calls before it left (or the workload completed).
+    Hence the theorems above, which hold for every file system, hold after
+    every workload prefix. -/
+theorem crashW_split (w : List Call) (fs : FS) (j : Nat) (n : Option Nat) :
+    crashW fs w j n = runW fs w ∨
+    ∃ w1 c w2 j', w = w1 ++ c :: w2 ∧ j' < (c.ops (runW fs w1)).length ∧
+      crashW fs w j n = crash (runW fs w1) (c.ops (runW fs w1)) j' n := by
+  induction w generalizing fs j with
+  | nil => left; simp [crashW, traceW, runW, crash, applyAll]
+  | cons c w ih =>
+    by_cases hj : j < (c.ops fs).length
+    · right
+      refine ⟨[], c, w, j, rfl, hj, ?_⟩
+      simp only [crashW, traceW, runW]
+      exact crash_append_left hj
+    · have hj := Nat.le_of_not_lt hj
+      have e : crashW fs (c :: w) j n = crashW (applyAll fs (c.ops fs)) w (j - (c.ops fs).length) n := by
+        simp only [crashW, traceW]; exact crash_append_right hj
+      rcases ih (applyAll fs (c.ops fs)) (j - (c.ops fs).length) with h | ⟨w1, c', w2, j', hw, hj', h⟩
+      · left; rw [e, h]; rfl
+      · right
+        exact ⟨c :: w1, c', w2, j', by rw [hw]; rfl, hj', by rw [e, h]; rfl⟩
+
+/-- **Earlier commits stay intact through any later workload of stores of
+    other keys, interrupted anywhere**: induction over the workload. -/
+theorem earlier_commits_intact_workload (ms : List MDesc) (fs : FS) (j : Nat) (n : Option Nat) (k : String) (e : Entry)
+    (hk : ∀ m ∈ ms, k ≠ m.key) (hk2 : k ≠ ".datasets")
+    (h : (dbRetrieve k fs).2 = .ok e) :
+    (dbRetrieve k (crashW fs (ms.map Call.dbStoreEntry) j n)).2 = .ok e := by
+  induction ms generalizing fs j with
+  | nil => simpa [crashW, traceW, crash, applyAll] using h
+  | cons m ms ih =>
+    have hm := hk m List.mem_cons_self
+    by_cases hj : j < ((Call.dbStoreEntry m).ops fs).length
+    · have : crashW fs ((m :: ms).map Call.dbStoreEntry) j n = crash fs (dbStoreEntry m fs).1 j n := by
+        simp only [List.map_cons, crashW, traceW]
+        rw [crash_append_left hj]
+        simp [Call.ops, Call.run, outOf]
+        cases hh : dbStoreEntry m fs with
+        | mk o r => cases r <;> simp [outOf]
+      rw [this]; exact earlier_commits_intact m fs j n k e hm hk2 h
+    · have hj := Nat.le_of_not_lt hj
+      have hops : (Call.dbStoreEntry m).ops fs = (dbStoreEntry m fs).1 := by
+        simp [Call.ops, Call.run]
+        cases hh : dbStoreEntry m fs with
+        | mk o r => cases r <;> simp [outOf]
+      have e1 : crashW fs ((m :: ms).map Call.dbStoreEntry) j n
+          = crashW (applyAll fs (dbStoreEntry m fs).1) (ms.map Call.dbStoreEntry) (j - (dbStoreEntry m fs).1.length) n := by
+        simp only [List.map_cons, crashW, traceW]
+        rw [crash_append_right hj, hops]
+      rw [e1]
+      apply ih _ _ (fun m' hm' => hk m' (List.mem_cons_of_mem _ hm'))
+      have := earlier_commits_intact m fs (dbStoreEntry m fs).1.length n k e hm hk2 h
+      rwa [crash_of_length_le (Nat.le_refl _)] at this
+
+/-! ### log.csv -/
+
+/-- **Log messages come back in order and verbatim** — for any number of
+    appended messages with arbitrary content (quotes, commas, line breaks,
+    …), under the side condition that a message is not one of pandas' NA
+    strings (those come back as NaN, `none`) and that context path, date and
+    severity contain no separator, quote or line break. -/
+theorem log_roundtrip_partial (rs : List LogRec) (h : ∀ r ∈ rs, r.Safe) :
+    readLog (logHeader ++ (rs.map LogRec.line).flatten)
+      = .ok (rs.map fun r => if isNA r.message then none else some r.message) := by
+  have hp : csvParse (logHeader ++ (rs.map LogRec.line).flatten)
+      = some (["path".toList, "time".toList, "severity".toList, "message".toList]
+          :: rs.map fun r => [r.path, r.date, r.severity, r.message]) := by
+    simp only [csvParse, List.foldl_append, fold_header, fold_log rs h]
+    simp [csvFinish, atRecordStart]
+  simp only [readLog, hp]
+  have hany : (rs.map fun r => [r.path, r.date, r.severity, r.message]).any (fun r => decide (4 < r.length)) = false := by
+    simp [List.any_eq_false]
+  simp [hany]
+
+/-- `log_order`: the rows are exactly the messages, in append order. -/
+theorem log_order (rs : List LogRec) (h : ∀ r ∈ rs, r.Safe) (hna : ∀ r ∈ rs, isNA r.message = false) :
+    readLog (logHeader ++ (rs.map LogRec.line).flatten) = .ok (rs.map fun r => some r.message) := by
+  rw [log_roundtrip_partial rs h]
+  congr 1
+  apply List.map_congr_left
+  intro r hr; simp [hna r hr]
+
+/-- The full statement is false of the code: `"NA"`, `""`, `"nan"` are lost. -/
+theorem log_na_witness :
+    readLog (logHeader ++ logLine "ctx".toList "2026".toList "info".toList "NA".toList) = .ok [none] ∧
+    readLog (logHeader ++ logLine "ctx".toList "2026".toList "info".toList []) = .ok [none] ∧
+    readLog (logHeader ++ logLine "ctx".toList "2026".toList "info".toList "nan".toList) = .ok [none] := by
+  decide
+
+/-- A torn append makes the whole log unreadable (all committed messages
+    lost to the reader) or shows a partial row as a log entry. -/
+theorem log_torn_witness :
+    let l1 := logLine "ctx".toList "2026".toList "info".toList "first".toList
+    let l2 := logLine "ctx".toList "2026".toList "info".toList "second".toList
+    readLog (logHeader ++ l1 ++ l2.take 18) = .error .parserError ∧
+    readLog (logHeader ++ l1 ++ l2.take 6) = .ok [some "first".toList, none] := by
+  decide
+
+end Pharmpy.C16
+
+namespace Pharmpy.C16
+
+/-! ### annotations -/
+
+/-- The lines `store_annotation` writes. -/
+def annLines (name ann : List Char) (ls : List (List Char)) : List (List Char) :=
+  let ls' := ls.map (fun l => if lineKey l = name then annLine name ann else l)
+  if ls.any (fun l => lineKey l = name) then ls' else ls' ++ [annLine name ann]
+
+theorem storeAnnotationText_lines (name ann : List Char) (ls : List (List Char)) (h : ∀ l ∈ ls, WfLine l) :
+    storeAnnotationText name ann ls.flatten = (annLines name ann ls).flatten := by
+  simp only [storeAnnotationText, annLines, readlines_flatten ls h]
+
+theorem annLines_wf (name ann : List Char) (ls : List (List Char)) (h : ∀ l ∈ ls, WfLine l)
+    (hw : WfLine (annLine name ann)) : ∀ l ∈ annLines name ann ls, WfLine l := by
+  intro l hl
+  simp only [annLines] at hl
+  have hmap : ∀ l ∈ ls.map (fun l => if lineKey l = name then annLine name ann else l), WfLine l := by
+    intro l hl
+    rw [List.mem_map] at hl
+    obtain ⟨l0, hl0, rfl⟩ := hl
+    split
+    · exact hw
+    · exact h l0 hl0
+  split at hl
+  · exact hmap l hl
+  · rcases List.mem_append.mp hl with hl | hl
+    · exact hmap l hl
+    · simp at hl; subst hl; exact hw
+
+/-- **Annotation round trip** — for a name without blank or line break and an
+    annotation without line break, on any annotations file made of complete
+    lines: the stored annotation comes back verbatim. -/
+theorem annotation_roundtrip_partial (name ann : List Char) (ls : List (List Char)) (h : ∀ l ∈ ls, WfLine l)
+    (hn0 : ' ' ∉ name) (hn1 : '\n' ∉ name) (hn2 : '\r' ∉ name) (ha1 : '\n' ∉ ann) (ha2 : '\r' ∉ ann) :
+    retrieveAnnotationText name (storeAnnotationText name ann ls.flatten) = .ok ann := by
+  have hw := wf_annLine name ann hn1 hn2 ha1 ha2
+  rw [storeAnnotationText_lines name ann ls h]
+  unfold retrieveAnnotationText
+  rw [readlines_flatten _ (annLines_wf name ann ls h hw)]
+  have hkey := lineKey_annLine name ann hn0
+  have hfind : (annLines name ann ls).find? (fun l => decide (lineKey l = name)) = some (annLine name ann) := by
+    apply find?_eq_of_forall
+    · intro l hl hp
+      have hp : lineKey l = name := by simpa using hp
+      simp only [annLines] at hl
+      have hmap : ∀ l ∈ ls.map (fun l => if lineKey l = name then annLine name ann else l),
+          lineKey l = name → l = annLine name ann := by
+        intro l hl hp
+        rw [List.mem_map] at hl
+        obtain ⟨l0, _, rfl⟩ := hl
+        by_cases hk : lineKey l0 = name
+        · simp [hk]
+        · simp [hk] at hp
+      split at hl
+      · exact hmap l hl hp
+      · rcases List.mem_append.mp hl with hl | hl
+        · exact hmap l hl hp
+        · simpa using hl
+    · simp only [annLines]
+      split
+      · rename_i hany
+        rw [List.any_eq_true] at hany
+        obtain ⟨l0, hl0, hp0⟩ := hany
+        refine ⟨annLine name ann, ?_, by simpa using hkey⟩
+        rw [List.mem_map]
+        exact ⟨l0, hl0, by simp at hp0; simp [hp0]⟩
+      · exact ⟨annLine name ann, by simp, by simpa using hkey⟩
+  rw [hfind]
+  have hc : (annLine name ann).contains ' ' = true := by simp [annLine]
+  simp only [hc, if_true]
+  congr 1
+  unfold annLine
+  rw [dropWhile_append_of_all name _ (fun c hc => by
+    have : c ≠ ' ' := fun e => hn0 (e ▸ hc)
+    simpa using this)]
+  simp [List.dropWhile]
+
+/-- The written file is again made of complete lines, so the round trip
+    holds after any number of stores. -/
+theorem annotation_wf_preserved (name ann : List Char) (ls : List (List Char)) (h : ∀ l ∈ ls, WfLine l)
+    (hn1 : '\n' ∉ name) (hn2 : '\r' ∉ name) (ha1 : '\n' ∉ ann) (ha2 : '\r' ∉ ann) :
+    ∃ ls' : List (List Char), storeAnnotationText name ann ls.flatten = ls'.flatten ∧ ∀ l ∈ ls', WfLine l :=
+  ⟨annLines name ann ls, storeAnnotationText_lines name ann ls h,
+    annLines_wf name ann ls h (wf_annLine name ann hn1 hn2 ha1 ha2)⟩
+
+/-- The full statement is false of the code: an annotation with a line break
+    is cut, and a torn rewrite of the annotations file loses or cuts the
+    annotation of another, earlier stored name. -/
+theorem annotation_newline_witness :
+    retrieveAnnotationText "mA".toList (storeAnnotationText "mA".toList "line1\nline2".toList []) = .ok "line1".toList ∧
+    retrieveAnnotationText "mA".toList (storeAnnotationText "mA".toList "cr\rhere".toList []) = .ok "cr".toList := by
+  decide
+
+theorem annotation_torn_witness :
+    let t1 := storeAnnotationText "mA".toList "Model A".toList []
+    let t2 := storeAnnotationText "mC".toList "Model C".toList t1
+    retrieveAnnotationText "mA".toList t2 = .ok "Model A".toList ∧
+    retrieveAnnotationText "mA".toList (t2.take 0) = .error .keyError ∧
+    retrieveAnnotationText "mA".toList (t2.take 7) = .ok "Mod".toList ∧
+    retrieveAnnotationText "mA".toList (t2.take 2) = .error .indexError := by
+  decide
 
 end Pharmpy.C16
